@@ -20,7 +20,7 @@ META = dict(
     technique="TLA+ spec SchemaLang.tla (abstract syntax + rule predicates + verdict/Obs oracle) model-checked by "
               "TLC; every state of the exhaustive runs and of simulated behaviours is rendered to schema text and "
               "parsed by mjcf_schema.parse_string from the working tree",
-    text="TLC decides on SchemaLang.tla that the Grow actions stay inside the valid schemas and that each of the 52 "
+    text="TLC decides on SchemaLang.tla that the Grow actions stay inside the valid schemas and that each of the 53 "
          "mutation actions breaks exactly its rule; every valid schema, single-rule mutant (each rule in every "
          "container kind), pumped text (use chains / members / items up to 1500) and token-noise variant reached "
          "by TLC is parsed: accept => the returned Schema equals Obs, reject => SchemaError with 1 <= line <= "
@@ -47,7 +47,7 @@ RULE_MSG = {
     "S_ElemConUnknown": r"constraint references unknown attribute", "S_VariantUse": r"may not contain 'use'",
     "S_VariantRequired": r"may not be required", "S_ElemFacetName": r"requires a name",
     "S_AliasDangling": r"alias references undeclared element", "S_ChildDangling": r"child references undeclared element",
-    "S_DupChild": r"duplicate child", "S_DupAttr": r"duplicate attribute", "S_RequiresArity": r"exactly two attributes",
+    "S_DupChild": r"duplicate child", "S_DupAttr": r"duplicate attribute", "S_DupAttrViaUse": r"duplicate attribute", "S_RequiresArity": r"exactly two attributes",
     "S_EnumTarget": r"references undeclared enum", "S_RefNamespace": r"references namespace",
     "S_VectorFileBool": r"may not be a vector", "S_CharsUnbounded": r"must declare a bounded length",
     "S_PatternNonText": r"'pattern' requires a text attribute",
@@ -350,9 +350,13 @@ def run(ctx):
         for s in states:
             if s["ev"]["op"] == "mutate":
                 kinds.setdefault(s["ev"]["rule"], set()).add(cont_class(s["ev"]["kind"]))
-        for r in ("S_RequiresArity", "G_ConArity", "S_DupAttr", "S_RequiredDefault", "S_DanglingUse", "G_DefaultTok"):
+        for r in ("S_RequiresArity", "G_ConArity", "S_DupAttrViaUse", "S_RequiredDefault", "S_DanglingUse", "G_DefaultTok"):
             if not {"group", "element"} <= kinds.get(r, set()):
                 raise Machinery("vacuity: rule %s not exercised in both container kinds" % r)
+        # duplicates through a group shared along two use-paths below ONE top-level use (all three shapes)
+        shapes = {s["ev"]["kind"] for s in states if s["ev"]["op"] == "mutate" and s["ev"]["rule"] == "S_DupAttrViaUse"}
+        if not {"shared-twice", "shared-up", "shared-diamond"} <= shapes:
+            raise Machinery("vacuity: shared-group duplicate shapes missing: %s" % sorted(shapes))
         for w in ("pump", "noise"):
             if not any(s["ev"]["op"] == w for s in states):
                 raise Machinery("vacuity: no %s state" % w)
